@@ -68,6 +68,16 @@ def multi_cases(rng, tier):
         for _ in range(150 if tier == "quick" else 2500):
             seq = [rng.choice(alpha) for _ in range(rng.randint(3, 7))]
             out.append(multi_case(keys, prefix + seq, "multi-enum+"))
+    # a configure (under either key or none) between two complete bundles of one run, the other run bundling
+    for keys in ((0, 1), (1, 2)):
+        a, b = keys
+        for ck in (0, 1, 2):
+            for dev in (1, 2):
+                mops = [(a, ("open_run",)), (b, ("open_run",)), (a, ("create", 1, ())), (a, ("read", 1, ((1, 5),), ())),
+                        (a, ("save",)), (ck, ("configure", dev, 9)), (b, ("create", 2, ())), (a, ("create", 1, ())),
+                        (ck, ("checkpoint",)), (a, ("read", 1, ((1, 6),), ())), (a, ("save",)), (b, ("drop",)),
+                        (ck, ("checkpoint",))]
+                out.append(multi_case(keys, mops, "multi-scenario"))
     for _ in range(80 if tier == "quick" else 2000):      # two random walks interleaved
         keys = rng.choice([(0, 1), (1, 2), (0, 2)])
         walks = []
